@@ -25,10 +25,15 @@ def ingest(name, wt, prop, needs):
     assert patch.strip(), "empty patch"
     rc1, out1 = sh("/venv/bin/python demo.py", cwd=wt, env=env, timeout=900)
     ran.append("with change: demo.py -> exit %d" % rc1)
-    rc, out = sh("git stash -q", cwd=wt)
-    rc0, out0 = sh("/venv/bin/python demo.py", cwd=wt, env=env, timeout=900)
+    open(os.path.join(wt, ".ingest.diff"), "w").write(patch)
+    rc, out = sh("git apply -R .ingest.diff", cwd=wt)
+    assert rc == 0, out
+    try:
+        rc0, out0 = sh("/venv/bin/python demo.py", cwd=wt, env=env, timeout=900)
+    finally:
+        rc, out = sh("git apply .ingest.diff", cwd=wt)
+        assert rc == 0, out
     ran.append("without change: demo.py -> exit %d" % rc0)
-    sh("git stash pop -q", cwd=wt)
     rct, outt = sh("/venv/bin/python -m pytest -q -p no:cacheprovider --timeout=900 -x 2>&1 | tail -3", cwd=wt, env=env, timeout=1800)
     ran.append("with change: pytest -> %s" % outt.strip().splitlines()[-1] if outt.strip() else "?")
     ok = rc1 != 0 and rc0 == 0 and " passed" in outt and "failed" not in outt
